@@ -553,7 +553,7 @@ func main() {
 		Assumptions: []string{
 			"encoding/json's decoder is the independent reader of the emitted bytes; the expected image is computed from the value's descriptor, never by encoding the value",
 		},
-		QuickBudget:    150 * time.Second,
+		QuickBudget:    300 * time.Second,
 		ThoroughBudget: 30 * time.Minute,
 	})
 }
